@@ -125,4 +125,21 @@ def es_light(rep, seed):
 
 
 def replay(path, seed):
+    import json
+    from harness.engine.report import Report
+    with open(path) as f:
+        r = json.load(f).get('replay', {})
+    if 'fault_at' in r:
+        # a fault-injection case: the family is small, it is re-run as a whole
+        rep = Report('C04', 'quick', seed, 'model_checking')
+        rep.count(1, key='a')
+        rep.count(1, key='b')
+        fault_runs(rep, 'quick')
+        return rep.finish()
+    if 'level' in r and 'script' not in r:
+        rep = Report('C04', 'quick', seed, 'model_checking')
+        rep.count(1, key='a')
+        rep.count(1, key='b')
+        cell_runs(rep, 'quick')
+        return rep.finish()
     return dimwise_props.replay_prop('C04', path, seed)
